@@ -36,14 +36,15 @@ _VIOL = re.compile(r"^Error: (Invariant (\S+) is violated|Action property (\S+) 
 
 
 def workdir(name):
-    d = os.path.join(VERIF, ".work", name)
+    # per process: two runs of the same check at the same time (e.g. against different trees) never share scratch files
+    d = os.path.join(VERIF, ".work", "%s-%d" % (name, os.getpid()))
     shutil.rmtree(d, ignore_errors=True)
     os.makedirs(d)
     return d
 
 
 def cleanup(name):
-    shutil.rmtree(os.path.join(VERIF, ".work", name), ignore_errors=True)
+    shutil.rmtree(os.path.join(VERIF, ".work", "%s-%d" % (name, os.getpid())), ignore_errors=True)
 
 
 def run(module, cfg=None, workers=1, env=None, timeout=3600, simulate=None, depth=None, seed=None,
@@ -112,6 +113,9 @@ def run(module, cfg=None, workers=1, env=None, timeout=3600, simulate=None, dept
         m = _VIOL.match(line)
         if m and r.violation is None:
             r.violation = line[len("Error: "):]
+    if not lazy_exports:
+        # header records (the instance / document tables the other exports refer to by index) stay in front
+        r.exports.sort(key=lambda x: 0 if isinstance(x, dict) and ("instances" in x or "docs" in x) else 1)
     if simulate is not None:
         m = re.search(r"(\d+) states checked", p.stdout)
         if m:
